@@ -453,8 +453,11 @@ fn gen_sim_spec(rng: &mut Xoroshiro128StarStar, mix: bool) -> SimSpec {
         agents.push(bourse_verif_harness::sim::AgentSpec { kind, asset, f });
     }
     let seed = if rng.gen::<f64>() < 0.12 { [0u64, 1, 1 << 32, u64::MAX][rng.gen_range(0..4)] } else { rng.gen_range(0..1_000_000) };
+    // mostly short runs; now and then a long one whose length is not a round number (a progress bar that
+    // advances in blocks, a buffer that is flushed every so many steps, ... only show there)
+    let steps = if rng.gen::<f64>() < 0.1 { [0u64, 100, 101, 201, 251, 365, 1001][rng.gen_range(0..7)] } else { rng.gen_range(1..40) };
     SimSpec { seed, t0: rng.gen_range(0..100), ticks, step, trading: rng.gen::<f64>() < 0.9,
-              steps: rng.gen_range(1..40), multi, agents }
+              steps, multi, agents }
 }
 
 /// sim-gen --seed S --n N --mix 0|1 : run N generated simulations with the real runner.
